@@ -3,6 +3,7 @@ package main
 import (
 	"encoding/json"
 	"fmt"
+	"os"
 	"os/exec"
 	"runtime"
 	"sort"
@@ -54,7 +55,19 @@ type histOut struct {
 
 // runHistory executes one call history in a fresh worker process.
 func runHistory(worker string, ops []string, extraEnv ...string) (*histOut, error) {
-	cmd := exec.Command(worker, "-prop", "hist", strings.Join(ops, ","))
+	arg := strings.Join(ops, ",")
+	if len(arg) > 60000 {
+		// beyond what a single command-line argument may carry: hand it over in a file
+		f, err := os.CreateTemp(scratch, "hist-")
+		if err != nil {
+			return nil, err
+		}
+		f.WriteString(arg)
+		f.Close()
+		defer os.Remove(f.Name())
+		arg = "@" + f.Name()
+	}
+	cmd := exec.Command(worker, "-prop", "hist", arg)
 	cmd.Env = append(append(goEnv(), extraEnv...), "VERIF_DIR="+verifDir, "GOMAXPROCS=2", "VERIF_FP_FROM=-1", "VERIF_FP_EXCLUDE="+volatileList())
 	out, err := cmd.Output()
 	if err != nil {
@@ -295,10 +308,13 @@ func runC13(tier string) int {
 	w := buildWorkerH()
 	r := newHistResult("C13", tier)
 	kinds := []string{"CV", "IV", "CB", "CF", "CG", "CW", "CZ", "CX", "GE", "GX", "GR", "GS", "GB", "NW", "NF", "NB", "SD", "SW", "SP", "SM", "SA", "SB", "ST"}
-	langs := []int{2, 5, 8, 9, 10}
+	// 258 = English + 256, 4294967298 = English + 2^32, -254 = English - 256: unsupported values that
+	// collide with a supported one when a Language is squeezed into a narrower integer (a cache key,
+	// a table index)
+	langs := []int{2, 5, 8, 9, 10, 258}
 	maxStates := 64
 	if tier == "thorough" {
-		langs = []int{0, 1, 2, 3, 4, 5, 6, 7, 8, 9, 10, -1}
+		langs = []int{0, 1, 2, 3, 4, 5, 6, 7, 8, 9, 10, -1, 258, 4294967298, -254}
 		maxStates = 4096
 	}
 	e := &histExplorer{worker: w, prop: "C13", ops: histOps(kinds, langs), baseline: map[string]string{}, res: r, maxStates: maxStates, distinctOut: map[string]bool{}}
@@ -364,6 +380,19 @@ func runC13(tier string) int {
 		long = append(long, h)
 	}
 	long = append(long, append(append([]string(nil), e.ops...), e.ops...))
+	// thresholds such as 100, 256, 1000, 1024 (thorough: 4096, 65536) calls: a few cheap operations
+	// repeated that often
+	reps := 1100
+	if tier == "thorough" {
+		reps = 66000
+	}
+	for _, op := range []string{"CV:2", "CF:2", "GE:2", "NW:2", "NB:2", "ST:2", "CZ:5"} {
+		h := make([]string, reps)
+		for i := range h {
+			h[i] = op
+		}
+		long = append(long, h)
+	}
 	lo, err := parallelHist(w, long)
 	if err != nil {
 		die("%v", err)
@@ -400,7 +429,7 @@ func runC13(tier string) int {
 	r.Transitions = e.transitions
 	r.Evaluations = e.transitions
 	r.Distinct = int64(len(e.distinctOut))
-	r.Rule = "explicit-state BFS over call histories: alphabet = 23 operation kinds (valid/invalid validations, the same string under every language, encodings, the same entropy under every language, NewMnemonic over a scripted source swapped in and out, failing source, seeds with shared mnemonic or shared passphrase, a seed whose returned slice the caller then wipes, one caller-owned entropy buffer refilled in place, String); error values returned earlier must keep their text x languages (quick: English, Japanese, Czech, Portuguese + unsupported 10; thorough: all ten + unsupported 10 and -1); every transition is executed in a fresh OS process by replaying the shortest history to the source state and then the operation; state = SHA-256 of a canonical dump of every package-level variable of bip39 and internal/wordlist; search runs to a fixpoint; plus the complete ordered first-use matrix (10x10 ordered language pairs, each followed by valid/invalid validations in all ten languages), plus long histories (every operation 70 times in a row; the whole alphabet twice) and the whole alphabet under several process environments (GOMAXPROCS, TZ, locale, HOME, every environment variable the package reads). Oracle per executed call: outcome (value, error class and text, panic) equals the outcome of the same call in a fresh process; caller buffers and earlier results unchanged at the end of the history. distinct_nontrivial = distinct (operation, outcome) pairs observed"
+	r.Rule = "explicit-state BFS over call histories: alphabet = 23 operation kinds (valid/invalid validations, the same string under every language, encodings, the same entropy under every language, NewMnemonic over a scripted source swapped in and out, failing source, seeds with shared mnemonic or shared passphrase, a seed whose returned slice the caller then wipes, one caller-owned entropy buffer refilled in place, String); error values returned earlier must keep their text x languages (quick: English, Japanese, Czech, Portuguese + unsupported 10 and 258; thorough: all ten + unsupported 10, -1, 258, 2^32+2, -254); every transition is executed in a fresh OS process by replaying the shortest history to the source state and then the operation; state = SHA-256 of a canonical dump of every package-level variable of bip39 and internal/wordlist; search runs to a fixpoint; plus the complete ordered first-use matrix (10x10 ordered language pairs, each followed by valid/invalid validations in all ten languages), plus long histories (every operation 70 times in a row; the whole alphabet twice; seven cheap operations 1100 times each, thorough 66000) and the whole alphabet under several process environments (GOMAXPROCS, TZ, locale, HOME, every environment variable the package reads). Oracle per executed call: outcome (value, error class and text, panic) equals the outcome of the same call in a fresh process; caller buffers and earlier results unchanged at the end of the history. distinct_nontrivial = distinct (operation, outcome) pairs observed"
 	r.Extra["operations"] = len(e.ops)
 	r.Extra["first_use_matrix_histories"] = len(matrix)
 	r.Extra["reached_fixpoint"] = r.Exhaustive
